@@ -1,9 +1,9 @@
 package rules
 
 import (
-	"strings"
 	"fmt"
 	"golang.org/x/tools/go/ssa"
+	"strings"
 
 	"s2scheck/internal/flow"
 	"s2scheck/internal/report"
